@@ -120,6 +120,9 @@ func NewPositionFromFen(fen string) (Position, error) {
 	if !pos.areCastlingFlagsConsistent() {
 		return Position{}, fmt.Errorf("castling availability does not match the position of kings and rooks: %v", castleStr)
 	}
+	if pos.isOpponentKingUnderCheck() {
+		return Position{}, fmt.Errorf("the side that is not to move is in check: %v", fields[0])
+	}
 
 	//TODO read rest of the fields
 	// halfmoveClockStr := fields[4]
@@ -175,6 +178,15 @@ func (pos *Position) isEnPassantSquareConsistent() bool {
 	}
 	return ep.getRank() == Rank3 && pos.board[ep] == NullPiece &&
 		pos.board[ep+square(UnitRank)] == WPawn && pos.board[ep-square(UnitRank)] == NullPiece
+}
+
+// A position in which the side to move could capture the king is not a chess position; move generation
+// and MakeMove do not expect it (a king is on no piece list and is never taken off the board).
+func (pos *Position) isOpponentKingUnderCheck() bool {
+	if pos.flags&FlagWhiteTurn != 0 {
+		return pos.isUnderCheck(pos.whitePieces, pos.whitePawns, pos.whiteKing, pos.blackKing)
+	}
+	return pos.isUnderCheck(pos.blackPieces, pos.blackPawns, pos.blackKing, pos.whiteKing)
 }
 
 // Castling is only available with the king and the rook on their start squares.
